@@ -23,3 +23,12 @@ Theorem C09_too_few_arguments : forall w gen s name args fi md,
   dict_get (cg_macros s) name = Some md -> (length args < length (md_params md))%nat ->
   is_ok (gen_one w gen s (AMacroApply name args fi)) = false.
 Proof. exact macro_too_few_arguments. Qed.
+
+(** An argument that cannot be evaluated at expansion time (it mentions a label) is bound when the
+    passes run, to its value in the CALLER's scope (the application scope's parent), so arguments
+    may refer to labels defined later and are never captured by the macro's own names. *)
+From A816 Require Import Model.Nodes.
+Theorem C09_deferred_argument : forall w r p e a s parent,
+  nth_error (r_scopes r) (r_cur r) = Some s -> s_parent s = Some parent ->
+  pc_after w r (NSymbol p e true) a = (do v <- eval_raw w (set_cur r parent) e; Ok (add_symbol r p v, a)).
+Proof. intros w r p e a s parent Hn Hp. cbn [pc_after]. rewrite Hn, Hp. reflexivity. Qed.
